@@ -23,7 +23,10 @@ class CommandOption(AbstractOption):
         self._short_aliases = []
 
         for alias in aliases:
-            alias = self._remove_dash_prefix(alias)
+            if isinstance(alias, str) and alias.startswith("--"):
+                alias = self._remove_double_dash_prefix(alias)
+            else:
+                alias = self._remove_dash_prefix(alias)
 
             if len(alias) == 1:
                 self._validate_short_alias(alias)
